@@ -20,7 +20,7 @@ RULE = ('cases = (a) DM1 end to end: a sender CA with Dm1.start_send(callback, c
 ASSUMPTIONS = ['J1939-73 layouts as coded in ref.codec (SPN low 16 bits in bytes 1-2, SPN bits 18..16 in the three MSBs of byte 3, FMI five LSBs, '
                'CM bit + 7-bit OC in byte 4; lamp status/flash two bits per lamp, PL lowest)', 'lamp keys the callback omits are sent as OFF']
 MIN_OBS = {'dm1_cycles_compared': {'quick': 500, 'thorough': 15000}, 'dtcs_compared': {'quick': 20000, 'thorough': 600000},
-           'stop_observed': {'quick': 140, 'thorough': 4500}, 'dm22_frames': {'quick': 2000, 'thorough': 60000}, 'dtc_codec_values': {'quick': 20000, 'thorough': 500000},
+           'stop_observed': {'quick': 450, 'thorough': 7000}, 'dm22_frames': {'quick': 2000, 'thorough': 60000}, 'dtc_codec_values': {'quick': 20000, 'thorough': 500000},
            'lamp_combinations_max': 1}
 
 SPN_B = [0, 1, 0xFF, 0x100, 0xFFFF, 0x10000, 0x1FFFF, 0x20000, 0x3FFFF, 0x40000, 0x7FFFF, 0x7ABCD, 0x54321]
@@ -31,7 +31,7 @@ OC_B = [0, 1, 63, 64, 126, 127]
 def cases(tier, seed):
     rng = random.Random(16000 + seed)
     out = []
-    n = 150 if tier == 'quick' else 5000
+    n = 500 if tier == 'quick' else 8000
     combos = list(itertools.product(range(5), repeat=4))
     rng.shuffle(combos)
     for i in range(n):
